@@ -290,9 +290,9 @@ def search(ctx, around=None):
     cases = []
     if around is not None and around.get('k') in ('static', 'sess_unit', 'sess_wsgi'):
         cases += gen.neighbours(rng, around, 3000)
-    cases += [gen.static_case(rng) for _ in range(30000)]
-    cases += [gen.sess_unit_case(rng) for _ in range(15000)]
-    cases += [gen.sess_wsgi_case(rng) for _ in range(8000)]
+    cases += [gen.static_case(rng) for _ in range(20000)]
+    cases += [gen.sess_unit_case(rng) for _ in range(10000)]
+    cases += [gen.sess_wsgi_case(rng) for _ in range(6000)]
     cases += gen.enum_small(4)
     check_cases(ctx, cases, compare_model=False, procs=16)
 
